@@ -152,6 +152,8 @@ class AbstractSpecification(object):
             raise RTAMTException('Unknown time unit {}: the units are s, ms, us and ns.'.format(unit))
         if tolerance < 0.0 or tolerance > 1.0:
             raise RTAMTException('Tolerance must be in [0,1]')
+        if not sampling_period > 0:
+            raise RTAMTException('The sampling period must be positive')
         self.ast.sampling_period = sampling_period
         self.ast.sampling_period_unit = unit
         # operators that were already built (by an earlier update() or reset()) count their bounds
